@@ -198,6 +198,9 @@ def generate(rng, tier, index):
         rg = [leaf["name"] for leaf in spec["leaves"] if leaf["rg"]]
         inputs = rng.sample(rg, rng.randint(1, len(rg))) if rng.random() < 0.8 else None
         call = {"api": "backward", "tensors": outs, "inputs": inputs, "agg": gen_det_agg(rng, m, dtype), "chunk": gen_chunk(rng, m), "retain": rng.random() < 0.5}
+        from ..world import gen_forms
+
+        call["forms"] = gen_forms(rng)
         roles = None
         faults = faults_backward(rng, spec, model, call)
     else:
